@@ -87,6 +87,27 @@ Definition verify_choice (force conf_verify fingerprints authority : bool) : boo
   let anyval := conf_verify || fingerprints || authority in
   if force && negb anyval then true else conf_verify.
 
+(* ---- SocketDriver.reconnect(): from the popped server entry to the TLS layer ----
+   `self.currentServer = server or self._getNextServer()`; an entry from the configured list has attempt = None
+   (here -1) and gets the driver's attempt number through `_replace(attempt=...)`, which keeps every other field --
+   force_tls_verification included; then `if network_config.ssl() or currentServer.force_tls_verification: starttls()`
+   and starttls chooses `verify` (verify_choice above) *)
+Definition fill_attempt (sv : server) (drv : Z) : server :=
+  if Z.eqb (sv_attempt sv) (-1) then Server (sv_host sv) (sv_port sv) drv (sv_force sv) else sv.
+Record conn := Conn { cn_server : server; cn_tls : bool; cn_verify : bool }.
+Definition connect_with (sv : server) (drv : Z) (ssl cv fp ca : bool) : conn :=
+  let sv' := fill_attempt sv drv in
+  let tls := ssl || sv_force sv' in
+  Conn sv' tls (if tls then verify_choice (sv_force sv') cv fp ca else false).
+(* drv = the driver's attempt counter before the call; ssl = networks.<net>.ssl; cv fp ca = the certificate validation settings *)
+Definition connectS (conf : list server) (now : Z) (n : netstore) (m : mixin) (drv : Z) (ssl cv fp ca : bool)
+  : netstore * mixin * res conn :=
+  let '(n', m', r) := getNextServer conf now n m in
+  match r with
+  | Ok sv => let c := connect_with sv (drv + 1) ssl cv fp ca in (n', Mixin (m_servers m') (Some (cn_server c)), Ok c)
+  | Raise e => (n', m', Raise e)
+  end.
+
 (* ---- wire ---- *)
 Definition gServer (v : value) : server := Server (gS (nth_v 0 v)) (gZ (nth_v 1 v)) (gZ (nth_v 2 v)) (gB (nth_v 3 v)).
 Definition vServer (s : server) : value := L [vS (sv_host s); I (sv_port s); I (sv_attempt s); vB (sv_force s)].
@@ -109,7 +130,8 @@ Definition gMev (v : value) : mev :=
 (* run:  0..1 as C08 (one registration step / parseStsPolicy)
          2 (now net server) -> (net' result)            _applyStsPolicy
          3 (force conf fp ca) -> bool                    starttls verify choice
-         4 (conf net mixin event) -> (net' mixin' result?)   one ServersMixin / store step *)
+         4 (conf net mixin event) -> (net' mixin' result?)   one ServersMixin / store step
+         20 (conf net mixin now attempt ssl cv fp ca) -> (net' mixin' (server tls verify))   SocketDriver.connect() down to the TLS layer *)
 Definition run (v : value) : value :=
   let p := nth_v 1 v in
   match gN (nth_v 0 v) with
@@ -117,6 +139,9 @@ Definition run (v : value) : value :=
          L [vNet n'; vR vServer r]
   | 4 => let '(n', m', o) := mstep (map gServer (gL (nth_v 0 p))) (gNet (nth_v 1 p), gMixin (nth_v 2 p)) (gMev (nth_v 3 p)) in
          L [vNet n'; vMixin m'; vO (vR vServer) o]
+  | 20 => let '(n', m', r) := connectS (map gServer (gL (nth_v 0 p))) (gZ (nth_v 3 p)) (gNet (nth_v 1 p)) (gMixin (nth_v 2 p)) (gZ (nth_v 4 p))
+                                      (gB (nth_v 5 p)) (gB (nth_v 6 p)) (gB (nth_v 7 p)) (gB (nth_v 8 p)) in
+          L [vNet n'; vMixin m'; vR (fun c => L [vServer (cn_server c); vB (cn_tls c); vB (cn_verify c)]) r]
   | 3 => vB (verify_choice (gB (nth_v 0 p)) (gB (nth_v 1 p)) (gB (nth_v 2 p)) (gB (nth_v 3 p)))
   | _ => C08.Model.run v
   end.
